@@ -1,5 +1,11 @@
 use std::collections::{HashMap, HashSet};
+#[cfg(not(feature = "verif"))]
 use std::time::{Duration, Instant, SystemTime, UNIX_EPOCH};
+#[cfg(feature = "verif")]
+use std::time::Duration;
+
+#[cfg(feature = "verif")]
+use sierradb::verif::{Instant, SystemTime, UNIX_EPOCH};
 
 use arrayvec::ArrayVec;
 use libp2p::PeerId;
